@@ -323,3 +323,52 @@ func c17ExecShared(c c17Case, o *core.Obs) {
 		}
 	}
 }
+
+// cachekey: path texts that differ only in something a cache key might normalise away (blanks inside a quoted key,
+// letter case, the quoting style) address different elements. Each case is the first one its worker process runs, so
+// the process-wide parsed-path cache is empty; the order of a pair alternates from case to case, because whichever
+// text is parsed first owns a shared entry.
+const c17NCacheKey = 16
+
+func c17ExecCacheKey(c c17Case, o *core.Obs) {
+	m := map[string]any{
+		"first name": "FN-blank", "firstname": "FN", "a b": map[string]any{"c": "AB-blank"}, "ab": map[string]any{"c": "AB"},
+		"x\ty": "XY-tab", "xy": "XY", "Key": "K-upper", "key": "k-lower", "a.b": "dotted", "a": map[string]any{"b": "nested"},
+		"unit price": "UP-blank", "unitprice": "UP", " lead": "lead-blank", "lead": "lead", "q'r": "quote", "qr": "noquote",
+	}
+	pairs := [][2][2]string{
+		{{`m['first name']`, "FN-blank"}, {`m['firstname']`, "FN"}},
+		{{`m["a b"].c`, "AB-blank"}, {`m["ab"].c`, "AB"}},
+		{{"m['x\ty']", "XY-tab"}, {`m['xy']`, "XY"}},
+		{{`m['Key']`, "K-upper"}, {`m['key']`, "k-lower"}},
+		{{`m['a.b']`, "dotted"}, {`m.a.b`, "nested"}},
+		{{`m['unit price']`, "UP-blank"}, {`m["unitprice"]`, "UP"}},
+		{{`m.Key`, "K-upper"}, {`m.key`, "k-lower"}},
+		{{`m["q'r"]`, "quote"}, {`m["qr"]`, "noquote"}},
+	}
+	o.Evals++
+	o.NT("cachekey", fmt.Sprint(c.Mode))
+	o.Cell(fmt.Sprintf("part/cachekey/order-%d/first-pair-%d", c.Mode%2, (c.Mode/2)%len(pairs)))
+	s := vuego.NewStack(map[string]any{"m": m})
+	for k := range pairs {
+		pr := pairs[(k+c.Mode/2)%len(pairs)]
+		if c.Mode%2 == 1 {
+			pr[0], pr[1] = pr[1], pr[0]
+		}
+		for _, t := range pr {
+			var got any
+			var ok bool
+			func() {
+				defer func() {
+					if r := recover(); r != nil {
+						o.Fail(c, "cachekey/panic", "Resolve(%q) panicked: %v", t[0], r)
+					}
+				}()
+				got, ok = s.Resolve(t[0])
+			}()
+			if !ok || fmt.Sprint(got) != t[1] {
+				o.Fail(c, "cachekey/path-answered-with-another-paths-element", "Resolve(%q) = (%v, %v), Go indexing gives %q (resolved after %q in a process whose path cache was empty)", t[0], got, ok, t[1], pr[0][0])
+			}
+		}
+	}
+}
